@@ -80,7 +80,7 @@ def gen_cases(rng, tier):
         elif k == 'delete':
             c['selected'] = [x for x in names if rng.chance(0.4)]
         else:
-            c['how'] = rng.pick(['iterable', 'load_tuple', 'sources', 'load_dp'])
+            c['how'] = rng.pick(['iterable', 'load_tuple', 'load_tuple_lists', 'sources', 'load_dp'])
             c['new'] = gen_pkg(rng, nres=rng.randint(1, 2))
             for j, r in enumerate(c['new']):
                 r['name'] = 'n%d' % j
@@ -121,9 +121,11 @@ def steps_of(case):
     how = case['how']
     if how == 'iterable':
         return [[dict(r) for r in n['rows']] or [{}] for n in new[:1]] if False else [IterSrc(new[0])]
-    if how == 'load_tuple':
+    if how in ('load_tuple', 'load_tuple_lists'):
         desc = {'resources': [{'name': n['name'], 'path': n['name'] + '.csv', 'schema': {'fields': copy.deepcopy(n['fields'])}}
                               for n in new]}
+        if how == 'load_tuple_lists':        # the resources of the pair given as plain lists of rows
+            return [DF.load((desc, [copy.deepcopy(n['rows']) for n in new]))]
         return [DF.load((desc, [iter(copy.deepcopy(n['rows'])) for n in new]))]
     if how == 'sources':
         return [DF.sources(Flow(Src(new)))]
